@@ -26,11 +26,11 @@ theorem marginInt_of_pair (V : Nat) (hV : 0 < V) (hm : MarginPair (roundPair V 1
     exact hm
 
 /-- the exact version of `realResult_class`: in range, under the margin (and, for a negative net
-exponent, `2^(X/27+1) ≤ v`), the result is `Real` with exactly the correctly rounded magnitude -/
+exponent, `2^(X/27) ≤ 2v` with `X < 216`, or `2^(X/27+1) ≤ v`), the result is `Real` with exactly the correctly rounded magnitude -/
 theorem realResult_exact (neg : Bool) (v n X : Nat) (FLAG : Bool) (off : Nat) (hv0 : 0 < v) (hv : v < 2 ^ 64)
     (hn19 : n ≤ 19) (hX : X < 2 ^ 31)
     (hrange : if FLAG then X ≤ n + 324 else X + n ≤ 309)
-    (hcond : FLAG = true → 2 ^ (X / 27 + 1) ≤ v)
+    (hcond : FLAG = true → (X < 216 ∧ 2 ^ (X / 27) ≤ 2 * v) ∨ 2 ^ (X / 27 + 1) ≤ v)
     (hm : if FLAG then MarginPair (roundPair v (10 ^ X)).1 (roundPair v (10 ^ X)).2
           else MarginPair (roundPair (v * 10 ^ X) 1).1 (roundPair (v * 10 ^ X) 1).2) :
     realResult neg v n X FLAG off =
